@@ -286,6 +286,122 @@ pub fn child_main(args: &[String]) -> i32 {
     0
 }
 
+/// Child: the target stream is re-pointed while the process runs (daemonising, dup2) and a new
+/// tty_only appender is built each time: terminal -> pipe -> terminal.
+pub fn child_seq(args: &[String]) -> i32 {
+    let stderr_target = args[0] == "stderr";
+    let fd = if stderr_target { 2 } else { 1 };
+    let target = if stderr_target { Target::Stderr } else { Target::Stdout };
+    let mk = || ConsoleAppender::builder().encoder(Box::new(PatternEncoder::new("{m}{n}"))).target(target).tty_only(true).build();
+    let log = |app: &ConsoleAppender, m: &str| {
+        let _ = app.append(&Record::builder().level(Level::Info).args(format_args!("{}", m)).build());
+    };
+    log(&mk(), "first-on-terminal");
+    let mut fds = [0 as libc::c_int; 2];
+    let piped: Vec<u8>;
+    unsafe {
+        if libc::pipe(fds.as_mut_ptr()) != 0 {
+            return 4;
+        }
+        let saved = libc::dup(fd);
+        libc::dup2(fds[1], fd);
+        log(&mk(), "second-on-pipe");
+        libc::dup2(saved, fd);
+        libc::close(saved);
+        libc::close(fds[1]);
+        let mut f = File::from_raw_fd(fds[0]);
+        let mut v = vec![];
+        let _ = f.read_to_end(&mut v);
+        piped = v;
+    }
+    log(&mk(), "third-on-terminal");
+    // report on the other stream
+    let line = format!("RESULT {}\n", json!({"pipe_bytes": String::from_utf8_lossy(&piped)}));
+    use std::io::Write;
+    if stderr_target {
+        let _ = std::io::stdout().write_all(line.as_bytes());
+        let _ = std::io::stdout().flush();
+    } else {
+        let _ = std::io::stderr().write_all(line.as_bytes());
+    }
+    0
+}
+
+fn seq_case(rep: &mut Report, stderr_target: bool) {
+    let (mut master, slave) = match open_pty() {
+        Ok(x) => x,
+        Err(e) => {
+            rep.inconclusive(&format!("no pty available: {}", e));
+            return;
+        }
+    };
+    let mut cmd = Command::new(crate::childproc::self_exe());
+    cmd.args(["child", "c18seq", if stderr_target { "stderr" } else { "stdout" }]);
+    for v in ["NO_COLOR", "CLICOLOR", "CLICOLOR_FORCE"] {
+        cmd.env_remove(v);
+    }
+    cmd.stdin(Stdio::null());
+    let fd: OwnedFd = slave.into();
+    if stderr_target {
+        cmd.stderr(Stdio::from(fd)).stdout(Stdio::piped());
+    } else {
+        cmd.stdout(Stdio::from(fd)).stderr(Stdio::piped());
+    }
+    let mut child = match cmd.spawn() {
+        Ok(c) => c,
+        Err(e) => {
+            rep.inconclusive(&format!("cannot spawn: {}", e));
+            return;
+        }
+    };
+    drop(cmd);
+    set_nonblocking(&master);
+    let mut tty_bytes = vec![];
+    let start = Instant::now();
+    loop {
+        drain(&mut master, &mut tty_bytes);
+        match child.try_wait() {
+            Ok(Some(_)) => break,
+            Ok(None) => {
+                if start.elapsed() > Duration::from_secs(20) {
+                    let _ = child.kill();
+                    let _ = child.wait();
+                    rep.inconclusive("sequence child timed out");
+                    return;
+                }
+                std::thread::sleep(Duration::from_millis(1));
+            }
+            Err(_) => break,
+        }
+    }
+    std::thread::sleep(Duration::from_millis(2));
+    drain(&mut master, &mut tty_bytes);
+    let mut other = vec![];
+    if let Some(mut s) = child.stdout.take() {
+        let _ = s.read_to_end(&mut other);
+    }
+    if let Some(mut s) = child.stderr.take() {
+        let _ = s.read_to_end(&mut other);
+    }
+    let other = String::from_utf8_lossy(&other).into_owned();
+    let Some(line) = other.lines().find(|l| l.starts_with("RESULT ")) else {
+        rep.inconclusive("sequence child produced no result");
+        return;
+    };
+    let v: serde_json::Value = serde_json::from_str(&line[7..]).unwrap_or_default();
+    rep.case_enumerated(true);
+    rep.count("retargeting_sequences", 1);
+    let tty = String::from_utf8_lossy(&tty_bytes).into_owned();
+    let d = json!({"target": if stderr_target { "stderr" } else { "stdout" },
+        "history": "tty_only appender built on a terminal, then after dup2(pipe), then after dup2(terminal)",
+        "terminal_received": tty, "pipe_received": v["pipe_bytes"]});
+    if v["pipe_bytes"] != json!("") {
+        rep.violation("C18:tty_only-wrote-to-a-non-terminal:after-retargeting", d);
+    } else if tty != "first-on-terminal\nthird-on-terminal\n" {
+        rep.violation("C18:silent-although-it-must-write:after-retargeting", d);
+    }
+}
+
 fn env_name(v: Option<&str>) -> &str {
     v.unwrap_or("unset")
 }
@@ -452,6 +568,10 @@ pub fn run(rep: &mut Report) {
     match saved {
         Some(v) => std::env::set_var("L4V_JOBS", v),
         None => std::env::remove_var("L4V_JOBS"),
+    }
+    if rep.only.is_none() {
+        seq_case(rep, false);
+        seq_case(rep, true);
     }
     let n = if rep.tier == "thorough" { 400_000 } else { 40_000 };
     run_cases(rep, "ansi", n, ansi_patterns);
